@@ -159,3 +159,31 @@ func (a *Analysis) Find(e Expect, tick int64) *Occ {
 	}
 	return nil
 }
+
+// Chunked tells, per HTTP request id, how many insert requests (parts) the parser cut the
+// body into for the service that got most, and whether any of those parts was retried.
+func (a *Analysis) Chunked() (parts map[int]int, retried map[int]bool) {
+	parts, retried = map[int]int{}, map[int]bool{}
+	per := map[int]map[Kind]int{}
+	for _, p := range a.Parts {
+		rq := a.ReqByID[p.ReqID]
+		if rq == nil || !rq.HTTP || len(p.Subs) == 0 || len(p.Subs[0].Rows) == 0 {
+			continue
+		}
+		if per[p.ReqID] == nil {
+			per[p.ReqID] = map[Kind]int{}
+		}
+		per[p.ReqID][p.Kind]++
+		if len(p.Subs) > 1 {
+			retried[p.ReqID] = true
+		}
+	}
+	for id, m := range per {
+		for _, n := range m {
+			if n > parts[id] {
+				parts[id] = n
+			}
+		}
+	}
+	return
+}
